@@ -285,7 +285,7 @@ def r2_results(ctx):
 def r3_job_table(ctx):
     repo = ctx.repo
     n = 0
-    for fi, node, kind, det in scan().attr_sites("jobs", ("cascade.gateway",)):
+    for fi, node, kind, det in scan().attr_sites("jobs", ("cascade.gateway",), owner="cascade.gateway.router.JobRouter"):
         n += 1
         if kind in ("del", "subdel") or (kind == "mutcall" and det in ("pop", "clear", "popitem")):
             ctx.violation("C18.R3", fi.qual, loc(fi, node), "job table shrinks",
